@@ -258,9 +258,31 @@ fn docs(r: &mut Rng, sz: &Sizes) -> Vec<J> {
     ];
     out.extend(conflict_docs());
     out.extend(width_docs());
+    out.extend(near_equal_docs());
     for i in 0..sz.docs {
         let depth = i % 5;
         out.push(rand_doc(r, depth, DKEYS));
+    }
+    out
+}
+
+/// arrays whose elements are equal up to ONE nested optional flag or one nested Null (`[]` is an optional array of
+/// Null, `[null]` a plain one; a member that is null in one element and absent in another; ...): "equally shaped"
+/// has to be decided on the whole shape, flags included
+pub fn near_equal_docs() -> Vec<J> {
+    let pairs = [
+        ("[]", "[null]"), ("[[]]", "[[null]]"), ("{\"a\":[]}", "{\"a\":[null]}"), ("[[],1]", "[[null],1]"), ("[1,[]]", "[1,[null]]"),
+        ("{\"a\":{\"b\":[]}}", "{\"a\":{\"b\":[null]}}"), ("[{\"a\":1},{}]", "[{\"a\":1},{\"a\":2}]"), ("[[1],[]]", "[[1],[2]]"),
+        ("null", "[]"), ("[null,null]", "[null]"), ("{\"a\":null}", "{}"), ("[[],[]]", "[[],[null]]"),
+    ];
+    let mut out = Vec::new();
+    for (x, y) in pairs {
+        for t in [
+            format!("[{x},{y}]"), format!("[{y},{x}]"), format!("[{x},{y},{x}]"), format!("[{y},{y},{x}]"), format!("[{x},{x},{y}]"),
+            format!("{{\"rows\":[{x},{y}]}}"), format!("[[{x},{y}],[{y},{x}]]"), format!("[{{\"k\":{x}}},{{\"k\":{y}}}]"),
+        ] {
+            out.push(parse_j(&t));
+        }
     }
     out
 }
